@@ -245,7 +245,7 @@ pub fn run(run: &Run) {
         injective(l, "ecube", etexts);
         l.sample(J::s("kind=cube;p=5;q=2"));
     });
-    for n in 0..=3usize {
+    for n in 0..=(if run.thorough() { 4usize } else { 3 }) {
         let mut cubes: Vec<(u32, u32)> = Vec::new();
         for p in 0..(1u32 << n) {
             for q in 0..(1u32 << n) {
@@ -255,7 +255,7 @@ pub fn run(run: &Run) {
             }
         }
         let eterms: Vec<(u32, u32)> = (0..(1u32 << n)).flat_map(|v| [(v, 0), (v, 1)]).collect();
-        let maxlen = if n <= 2 || run.thorough() { 3 } else { 2 };
+        let maxlen = if n == 4 { 2 } else if n <= 1 { 4 } else if n == 2 { if run.thorough() { 4 } else { 3 } } else if run.thorough() { 3 } else { 2 };
         for (kind, terms) in [("sop", &cubes), ("esop", &cubes), ("soes", &eterms)] {
             let ls = lists(terms, maxlen);
             let total = ls.len() as u64;
